@@ -282,7 +282,7 @@ Qed.
 
 Lemma override_inv s seg p r s' d : override_reassign nw s seg p r = Ok (s', d) -> SInv s -> SInv s'.
 Proof.
-  unfold override_reassign. intros H HI. cbv zeta in H.
+  unfold override_reassign. intros H HI. cbv zeta in H. destruct (vid_eqb p r) in H; [discriminate|].
   repeat step_bind H.
   all: inversion H; subst; clear H; unfold SInv in *; cbn [with_fields s_forms s_unserved].
   all: match goal with E : update_tours _ _ _ _ _ _ _ _ _ _ _ _ _ _ _ _ = Ok _ |- _ =>
